@@ -38,6 +38,12 @@ def shards(tier):
 
 
 def long_ident(r, used):
+    if r.random() < 0.06:
+        # user type names shaped like integer types that do not exist: u128, i1000, u256
+        for n in ("u128", "i128", "u256", "i1000", "u100", "i999"):
+            if n not in used:
+                used.add(n)
+                return n
     while True:
         n = r.choice("ABCDEFGHJKLMNPQRSTVWXYZ") + "".join(r.choice("abcdefghijklmnopqrstuvwxyz0123456789") for _ in range(6)) + r.choice("QXZ")
         if n not in used and not descr.K4_RE.match(n):
@@ -309,6 +315,11 @@ def one_schema(run, i, tmp):
         st = S.Style(run.rng("mstyle", i, kind)) if i % 3 else S.Style()
         mtext = S.print_schema(m, st)
         judge_negative(run, m, mtext, kind, lambda: PC.parse_string(mtext))
+        if i % 5 == 1:
+            # the same text with an import of a module that does not exist LATER in the file: the unresolved
+            # reference comes first and is what the error is about
+            mtext2 = mtext.rstrip("\n") + "\nmod no_such_module_%d;\n" % i
+            judge_negative(run, m, mtext2, kind, lambda: PC.parse_string(mtext2), sig_extra="|missing-mod-behind")
         if kind in ("forward", "undeclared") and i % 3 == 0:
             # the same unresolved reference with a SECOND fault behind it: a type nested deeper than the
             # transformer can walk.  Which of the two errors is reported is the front end's choice; that
